@@ -3,6 +3,7 @@ package gen
 import (
 	"math/rand/v2"
 	"strings"
+	"unicode"
 )
 
 // Path generators shared by the C06 (path rules) and C11 (escaping) engines.
@@ -175,6 +176,8 @@ var pathSoup = []string{"a", "b", "z", "A", "Z", "0", "1", "9", "-", ".", "_", "
 	"[", "]", "^", "{", "}", " ", "\"", "'", "*", "<", ">", "?", "`", "|", "\\", ":", ";", "é", "世", "ß", "\xff", "\x00", "\u0301", "\u212a", "\u0663", "\ufffd", "\xc0\x80",
 	// non-letter runes whose LOW BYTE is an allowed ASCII punctuation character or letter (a byte(r) truncation would let them through)
 	"\u202e", "\u2028", "\u2029", "\u2025", "\u0323", "\uff20", "\u2020", "\u200b", "\u2061", "\u212e", "\u2030", "\u203d", "\u2e2e", "\u3000", "\u205f", "\U0001f600",
+	// pairs of runes that agree in their low 16 bits and differ in being a letter (a table or cache keyed on part of the rune confuses them)
+	"\uf9d0", "\U0001f9d0", "\u0100", "\U000e0100", "\U00010100", "\U0002f800", "\uf800", "\u4e00", "\U00014e00",
 	"v", "v2", "v1", "v0", "v02", "/v2", "/v1", ".v1", ".v2", ".v0", ".v", "-unstable", "com", "con", "CON", "nul", "Aux", "com1", "LPT9", "~1", "~12", "a~1",
 	"gopkg.in", "example.com", "github.com", "..", "x.y", "\t", "\n", "\x7f"}
 
@@ -190,9 +193,48 @@ func PathSoup(r *rand.Rand) string {
 	}
 	n := 1 + r.IntN(7)
 	for i := 0; i < n; i++ {
+		if r.IntN(12) == 0 {
+			sb.WriteRune(BoundaryRune(r))
+			continue
+		}
 		sb.WriteString(Pick(r, pathSoup))
 	}
 	return sb.String()
+}
+
+// letterEdges: for every range of the Unicode letter tables, its first and last member and their
+// outer neighbours (a non-letter in the middle of a letter block, like U+00D7 between U+00D6 and
+// U+00D8, is the outer neighbour of two ranges).
+var letterEdges = func() []rune {
+	var out []rune
+	add := func(lo, hi rune) {
+		for _, x := range []rune{lo - 1, lo, hi, hi + 1} {
+			if x >= 0x80 && x <= unicode.MaxRune && !(0xD800 <= x && x <= 0xDFFF) {
+				out = append(out, x)
+			}
+		}
+	}
+	for _, rg := range unicode.L.R16 {
+		if rg.Stride == 1 {
+			add(rune(rg.Lo), rune(rg.Hi))
+		} else {
+			add(rune(rg.Lo), rune(rg.Lo))
+			add(rune(rg.Hi), rune(rg.Hi))
+		}
+	}
+	for _, rg := range unicode.L.R32 {
+		add(rune(rg.Lo), rune(rg.Hi))
+	}
+	return out
+}()
+
+// BoundaryRune draws a rune at an edge of a range of the Unicode letter tables (half of them are
+// letters, half are not), or now and then any code point below U+3000.
+func BoundaryRune(r *rand.Rand) rune {
+	if r.IntN(4) == 0 {
+		return rune(0x80 + r.IntN(0x3000-0x80))
+	}
+	return letterEdges[r.IntN(len(letterEdges))]
 }
 
 // InsertAt inserts ins into s at a random byte position in [lo, len(s)].
